@@ -441,6 +441,15 @@ pub fn run(sc: &Scenario) -> RunResult {
         with_sampler: sc.with_sampler,
     };
     let is_c07 = sc.prop == "C07";
+    // a voice whose feed cell holds an array handle (WASM loses the array storage on a swap:
+    // known finding, matched by this feature)
+    if sc.versions.iter().any(|v| match v {
+        Version::Gen(p) => p.sites.iter().any(|s| s.kind == crate::voices::Kind::ArrSelf),
+        _ => false,
+    }) {
+        res.features.push("array-typed-self-voice".into());
+        res.bump("runs_with_array_typed_self_voice");
+    }
     let src0 = sc.versions[0].source();
     let path0 = sc.versions[0].path();
     let started = crate::util::guarded(|| Sut::start(sc.backend, &src0, path0.clone(), &opts, sc.retire))
@@ -694,6 +703,21 @@ pub fn run(sc: &Scenario) -> RunResult {
                     break 'outer;
                 }
                 Err(p) => {
+                    // An array-state voice that is NOT obligated at the moment (touched, or one of
+                    // several identically shaped siblings next to an edit) may legitimately have
+                    // received another site's cells: a number in its handle cell makes it index a
+                    // non-existent array. That is the voice's own fragility, so such a run is not
+                    // judged; with every array-state site obligated the panic is a violation.
+                    let bad_handle = p.contains("Invalid ArrayIdx") || p.contains("invalid array ID");
+                    let unobligated_array_voice = voracle
+                        .as_ref()
+                        .map(|vo| vo.sites.iter().any(|s| s.voice.kind == crate::voices::Kind::ArrSelf && !s.known))
+                        .unwrap_or(false);
+                    if bad_handle && unobligated_array_voice {
+                        res.outcome = Some(Outcome::Skip("array-state voice received foreign cells while not obligated".into()));
+                        res.trace_hash = h;
+                        return res;
+                    }
                     violation = Some(Outcome::Violation {
                         clause: "audio-panic".into(),
                         detail: format!("{p} after {last_event}"),
@@ -931,7 +955,10 @@ pub fn gen_c06(seed: u64) -> Scenario {
         retire: *r_cfg.pick(&[RetireMode::Present, RetireMode::Present, RetireMode::Absent, RetireMode::ReceiverDropped]),
         with_scheduler: r_cfg.chance(1, 2),
         sample_rate: *r_cfg.pick(&[48000u32, 44100, 96000]),
-        self_init_0: root.sub("compiler-options").chance(1, 5),
+        // (under --self-init-0 an array-typed `self` yields the zero handle at sample 0 and the
+        // program panics in a fault-free run: not a hot-swap property)
+        self_init_0: root.sub("compiler-options").chance(1, 5)
+            && !v0.sites.iter().any(|s| s.kind == crate::voices::Kind::ArrSelf),
         with_sampler: false,
     }
 }
